@@ -415,6 +415,13 @@ func childC20(args []string) int {
 					}
 					em.fds = append(em.fds, fd)
 				}
+				if st.Mode == "partial" && len(em.fds) > 2 {
+					// two descriptors are left: enough to scan a directory, not enough for a watcher
+					for _, fd := range em.fds[len(em.fds)-2:] {
+						syscall.Close(fd)
+					}
+					em.fds = em.fds[:len(em.fds)-2]
+				}
 				em.active = true
 			case "exhaust-end":
 				if em.active {
@@ -1032,6 +1039,28 @@ func checkC20(c *Ctx) {
 		}
 	}
 	c.RunNamed([]string{"cat:held-watcher-across-configure", "cat:all-directories-missing-at-setup:new", "cat:all-directories-missing-at-setup:configure", "cat:reconfigured-to-no-directories", "cat:options-one-by-one:default-cache:auto=false", "cat:options-one-by-one:default-cache:auto=true"}, 4, func(cs *Case) { run(cs, -1, false, "") })
+	// catalogue: a partial shortage at set-up (a scan still gets its descriptor, a watcher
+	// does not get its four): once it is over, every query answers from the directories
+	for _, how := range []string{"new", "manual-then-auto"} {
+		how := how
+		for t := 0; t < 2; t++ {
+			fixed[fmt.Sprintf("cat:partial-shortage:%s", how)] = func(root, anchor string, pool []string) ([]c20Step, []string, bool) {
+				dirs := []string{anchor, pool[0]}
+				pre := []c20Step{{Op: "mkdir", Path: pool[0]}, {Op: "write", Path: filepath.Join(pool[0], "first.json"), Content: c20SpecContent("first")}}
+				// (a change right after the shortage, before anything is asked of the cache)
+				after := c20Step{Op: "write", Path: filepath.Join(pool[0], "second.json"), Content: c20SpecContent("second")}
+				if how == "new" {
+					return append(pre, c20Step{Op: "exhaust-begin", Mode: "partial"}, c20Step{Op: "new", Dirs: dirs, Auto: boolp(true)}, c20Step{Op: "query"}, c20Step{Op: "exhaust-end"}, after), dirs, true
+				}
+				return append(pre, c20Step{Op: "new", Dirs: dirs, Auto: boolp(false)}, c20Step{Op: "exhaust-begin", Mode: "partial"}, c20Step{Op: "configure", Auto: boolp(true)}, c20Step{Op: "query"}, c20Step{Op: "exhaust-end"}, after), dirs, true
+			}
+		}
+	}
+	var partialCases []string
+	for t := 0; t < 4; t++ {
+		partialCases = append(partialCases, fmt.Sprintf("cat:partial-shortage:new:t%d", t), fmt.Sprintf("cat:partial-shortage:manual-then-auto:t%d", t))
+	}
+	c.RunNamed(partialCases, 4, func(cs *Case) { run(cs, 0, false, "partial") })
 	var shortageCases []string
 	for t := 0; t < 4; t++ {
 		// (":tN": the first observation starts with the N-th kind of query)
